@@ -12,6 +12,8 @@ Strings are hex of their UTF-8 bytes (`-` = empty string). Lists use `,` / `;`, 
   routep <n> <day|month|year> <present s,s,…|->  the same through databaseChannel.Write with only these shard channels
   evict <behind> <ahead> <stale|-> | off1 off2 … fresh batch of rows with ts = now+off, evict, write
   ifields <maxFields> <maxFieldName> | key:value:pint:pfloat …   field section of an influx line
+  pnew <fresh|pooled>                            NewBrokerRowProtoConverter for the last cfg: brand-new converter, or the pooled one
+  pconv <metric>                                 ConvertTo through that converter (its state is carried along)
   fnew <fresh|pooled>                            a flat decoder: brand-new, or the one the last request released
   fdec <metric>                                  BrokerRowFlatDecoder.DecodeTo of the raw flat row (no nil entries)
 
@@ -23,6 +25,8 @@ import LinVerif.Model.Route
 import LinVerif.Model.Hash64
 import LinVerif.Model.InfluxField
 import LinVerif.Model.FlatRow
+import LinVerif.Model.C16Ident
+import LinVerif.Model.C16ProtoConv
 import LinVerif.Generated.C16
 
 namespace LinVerif.Driver.C16
@@ -167,6 +171,10 @@ def tb : Bool := Generated.C16.lessTieBreakOnValue
 whose sorted order does not depend on the algorithm (see design note). -/
 def sortTags : List Tag → List Tag := insertionSort (less tb)
 
+/-- where the converter sanitises the metric name / the namespace now (regenerated from the source) -/
+def nameFlow : C16Ident.NameFlow := .ofTriple Generated.C16.protoNameFlow
+def nsFlow : C16Ident.NameFlow := .ofTriple Generated.C16.protoNsFlow
+
 def H : String → Nat := Hash64.xxh64Str
 
 /-- days since 1970-01-01 → (year, month) and back (proleptic Gregorian, Hinnant's algorithms);
@@ -215,6 +223,7 @@ structure St where
   stale : List Bool
   batch : List Stored   -- rows appended so far (slot i = position i)
   dec : FlatRow.Dec     -- the flat decoder (with its RowBuilder) as the last row left it
+  pc : C16ProtoConv.PC  -- the pooled protobuf converter as the last request left it
 
 def showFErr : FlatRow.FErr → String
   | .tooManyTags => "too-many-tags"
@@ -255,7 +264,7 @@ def lim0 : Limits :=
    Generated.C16.defaultMaxTagNameLength, Generated.C16.defaultMaxTagValueLength,
    Generated.C16.defaultMaxTagsPerMetric, Generated.C16.defaultMaxFieldsPerMetric⟩
 
-def St.init : St := ⟨⟨lim0, "", [], 0⟩, [], [], FlatRow.Dec.fresh⟩
+def St.init : St := ⟨⟨lim0, "", [], 0⟩, [], [], FlatRow.Dec.fresh, C16ProtoConv.PC.fresh lim0⟩
 
 def marks? (w : String) : Option (List Bool) :=
   if w = "-" then some [] else
@@ -298,14 +307,14 @@ def step (st : St) (ws : List String) : St × String :=
   | "conv" :: rest =>
     match metric? rest with
     | some m =>
-      match convert tb sortTags H st.cfg m with
+      match C16Ident.convertF nameFlow nsFlow tb sortTags H st.cfg m with
       | .ok s => (st, showStored s)
       | .error e => (st, "err " ++ showErr e)
     | none => (st, "bad-op")
   | "add" :: rest =>
     match metric? rest with
     | some m =>
-      match convert tb sortTags H st.cfg m with
+      match C16Ident.convertF nameFlow nsFlow tb sortTags H st.cfg m with
       | .ok s => ({ st with batch := st.batch ++ [s] }, showStored s)
       | .error e => (st, "err " ++ showErr e)
     | none => (st, "bad-op")
@@ -348,6 +357,21 @@ def step (st : St) (ws : List String) : St × String :=
       | .rejected => (st, "rejected")
       | .stored fs => (st, "stored " ++ showList "," (fs.map (fun f => s!"{showStr f.name}:{f.ftype}:{showF f.value}")))
     | _, _, _ => (st, "bad-op")
+  | ["pnew", k] =>
+    -- NewBrokerRowProtoConverter for the request described by the last `cfg`: a brand-new converter or the
+    -- one the previous request released
+    if k = "fresh" then
+      ({ st with pc := (C16ProtoConv.PC.fresh st.cfg.limits).newFor st.cfg.reqNs st.cfg.enriched st.cfg.limits }, "ok")
+    else if k = "pooled" then
+      ({ st with pc := st.pc.newFor st.cfg.reqNs st.cfg.enriched st.cfg.limits }, "ok")
+    else (st, "bad-op")
+  | "pconv" :: rest =>
+    match metric? rest with
+    | some m =>
+      match st.pc.marshal nameFlow nsFlow tb sortTags H st.cfg.now m with
+      | (pc', .ok s) => ({ st with pc := pc' }, showStored s)
+      | (pc', .error e) => ({ st with pc := pc' }, "err " ++ showErr e)
+    | none => (st, "bad-op")
   | ["fnew", k] =>
     if k = "fresh" then ({ st with dec := FlatRow.Dec.fresh }, "ok")
     else if k = "pooled" then (st, "ok")
